@@ -105,11 +105,12 @@ theorem selection_exact (m : Meta) (bens : List (List Rat)) (margin : Rat)
           Pb (bens.getD d []) (maxBenefit bens * margin) i = true) :=
   refineStep_spec m bens margin hcur hreset htil
 
-/-- the initial state (`performSpatiallyAdaptiv(lmin, lmax)` on the box `[a, b]`) is well formed -/
+/-- the initial state (`performSpatiallyAdaptiv(lmin, lmax)` on the box `[a, b]`; the code asserts `lmax > 1`) is well
+formed -/
 theorem init_wf (lmin lmax : Nat) (a b : List Rat) (hlen : a.length = b.length) (hd : 1 ≤ a.length)
-    (hl : lmin ≤ lmax) (hab : ∀ d, d < a.length → a.getD d 0 < b.getD d 0) :
+    (hl : lmin ≤ lmax) (h2 : 2 ≤ lmax) (hab : ∀ d, d < a.length → a.getD d 0 < b.getD d 0) :
     DWWF a b lmax (DW.init lmin lmax a b) :=
-  SparseSpace.init_wf lmin lmax a b hlen hd hl hab
+  SparseSpace.init_wf lmin lmax a b hlen hd hl h2 hab
 
 /-- **one `refine()` call keeps everything** (selection + split + removal + sort + cursor resets + rebalancing
 + `update_coarsening_values` + `raise_lmax` + `update_values`): it never fails and the new state is well formed -/
@@ -154,14 +155,14 @@ theorem wf_clauses (a b : List Rat) (lmax0 : Int) (st : DW) (h : DWWF a b lmax0 
 `refine()` calls with arbitrary benefit tables, margins, rebalancing switches and comparison outcomes, every
 dimension's object list satisfies every state clause of C06 -/
 theorem all_histories (lmin lmax : Nat) (a b : List Rat) (hlen : a.length = b.length) (hd : 1 ≤ a.length)
-    (hl : lmin ≤ lmax) (hab : ∀ d, d < a.length → a.getD d 0 < b.getD d 0) (ins : List StepIn) :
+    (hl : lmin ≤ lmax) (h2' : 2 ≤ lmax) (hab : ∀ d, d < a.length → a.getD d 0 < b.getD d 0) (ins : List StepIn) :
     ∃ st, (DW.init lmin lmax a b).run ins = some st ∧ st.dim = a.length ∧
       ∀ d, d < a.length → ∃ (c : Cont) (lm : Int), st.m.conts[d]? = some c ∧ st.lmax[d]? = some lm ∧
         tilingOK (a.getD d 0) (b.getD d 0) c.objs = true ∧
         validLevels 0 0 (innerLevels c.objs) = true ∧
         (∀ x ∈ c.objs, x.c = lm - ((max x.l0 x.l1 : Nat) : Int) ∧ 0 ≤ x.c ∧ ((max x.l0 x.l1 : Nat) : Int) ≤ lm) ∧
         c.pop = [] ∧ c.startNew = 0 ∧ c.searchPos = 0 ∧ st.m.cur = 0 := by
-  obtain ⟨st, h1, h2, h3⟩ := reachable_wf a b lmax ins _ (init_wf lmin lmax a b hlen hd hl hab)
+  obtain ⟨st, h1, h2, h3⟩ := reachable_wf a b lmax ins _ (init_wf lmin lmax a b hlen hd hl h2' hab)
   have hdim : st.dim = a.length := by rw [h3]; rfl
   exact ⟨st, h1, hdim, fun d hd' => wf_clauses a b lmax st h2 d (by rw [hdim]; exact hd')⟩
 
@@ -170,7 +171,7 @@ ties, a threshold value and rebalancing with the exact-rational comparison at sa
 example : ∃ st, (DW.init 1 2 [0, 0] [1, 1]).run
       [⟨[[1, 0, 0, 0], [0, 0, 1/2, 1]], 1/2, true, ratDec (1/10)⟩,
        ⟨[[0, 0, 0, 0, 0], [0, 0, 0, 0, 4, 4]], 1, true, fun _ _ _ => true⟩] = some st ∧ st.dim = 2 := by
-  obtain ⟨st, h1, h2, _⟩ := all_histories 1 2 [0, 0] [1, 1] rfl (by decide) (by decide)
+  obtain ⟨st, h1, h2, _⟩ := all_histories 1 2 [0, 0] [1, 1] rfl (by decide) (by decide) (by decide)
     (by intro d hd
         have : d = 0 ∨ d = 1 := by simp at hd; omega
         rcases this with rfl | rfl <;> norm_num)
